@@ -6,7 +6,12 @@
     live, no live player's key is less than its key, and - if [stable] - it has the smallest index among the live
     players with an equivalent key.  [pl_ok] / [op_ok] / [seqs_ok] are the documented precondition of the
     unguarded classes (no player ever exhausted, the sentinel is not less than any key handed in); they are
-    vacuous for the guarded classes.  [ik <= 2^30]: Source = uint32_t arithmetic does not wrap. *)
+    vacuous for the guarded classes.  [ik <= 2^30]: Source = uint32_t arithmetic does not wrap.
+    This bound is NOT in the property text ("every number of players") and the real code does misbehave beyond it: the
+    constructors compute 2 * k_ and round_up_to_power_of_two(k) in 32 bits, so for 2^30 < k <= 2^31 they allocate no node
+    and write out of bounds, and for k > 2^31 they build a tree without nodes.  Recorded as known finding
+    [players-above-2^30] (known_findings.txt, docs/audit/C09.md); checks/C09.py re-runs the zero-memory witnesses
+    (harness/C09/big_k.cpp) on every run. *)
 From Coq Require Import List NArith.
 From TLXV Require Import Common.Order C09.LoserTree C09.Spec C09.Winner C09.Final C09.UnguardedGeneral C09.BuildOrder C09.RegOrder.
 Import ListNotations.
